@@ -29,6 +29,12 @@ Ltac dm H :=
   end.
 Ltac inv H := inversion H; subst; clear H.
 
+(* normal form for state expressions: top-level accessors and setters unfolded, projections reduced *)
+Ltac sproj :=
+  unfold clock, faults, trace, taint_close, taint_gc, nconns, c_nclose, c_start, c_det, c_mark, c_soft, nrecs, r_dbc, r_start, r_soft, r_fresh, r_fairy, nfairies, f_dbc, f_rec, f_orig, f_counter, f_dead, inv_time, q, overflow, static, sg_rec, sg_fairy, as_conn, as_out,
+    set_clock, set_faults, set_trace, set_taint_close, set_taint_gc, set_nconns, set_c_nclose, set_c_start, set_c_det, set_c_mark, set_c_soft, set_nrecs, set_r_dbc, set_r_start, set_r_soft, set_r_fresh, set_r_fairy, set_nfairies, set_f_dbc, set_f_rec, set_f_orig, set_f_counter, set_f_dead, set_inv_time, set_q, set_overflow, set_static, set_sg_rec, set_sg_fairy, set_as_conn, set_as_out, set_ex, set_cn, set_rc, set_fr, set_holders, set_pl in *;
+  cbn [clock_ faults_ trace_ taint_close_ taint_gc_ nconns_ c_nclose_ c_start_ c_det_ c_mark_ c_soft_ nrecs_ r_dbc_ r_start_ r_soft_ r_fresh_ r_fairy_ nfairies_ f_dbc_ f_rec_ f_orig_ f_counter_ f_dead_ inv_time_ q_ overflow_ static_ sg_rec_ sg_fairy_ as_conn_ as_out_ ex cn rc fr holders pl] in *.
+
 Definition taint (s : st) : bool := taint_close s || taint_gc s.
 
 (* ------------------------------------------------------------------ RecLevel *)
@@ -323,3 +329,450 @@ Proof.
 Qed.
 
 End Frame2.
+
+Ltac dm_goal := match goal with |- context [match ?x with _ => _ end] => destruct x end.
+
+Section Frame3.
+Variable cf : cfg.
+Ltac mono_leaf := constructor; cbn; intros; auto; try lia.
+Ltac mt := eapply Mono_trans.
+
+(* the middle part of _finalize_fairy: reset (+ close when detached), invalidate on error *)
+Lemma finalize_mono : forall dbc r gcf twr fy s x s', finalize cf dbc r gcf twr fy s = (x, s') -> Mono s s'.
+Proof.
+  unfold finalize; intros.
+  match type of H with (if ?b then _ else _) = _ => destruct b; [inv H; apply Mono_refl|] end.
+  match type of H with (let '(_, _) := ?e in _) = _ => destruct e as [y s1] eqn:E0 end.
+  assert (M0 : Mono s s1).
+  { match type of E0 with match ?d with _ => _ end = _ => destruct d as [c|] end; [|inv E0; apply Mono_refl].
+    match type of E0 with (let '(_, _) := ?e in _) = _ => destruct e as [y1 s2] eqn:E1 end.
+    assert (M1 : Mono s s2).
+    { destruct (fairy_reset cf c twr s) as [z s3] eqn:Er. apply fairy_reset_rl, RecLevel_Mono in Er.
+      destruct z; [|inv E1; auto]. dm E1; try (inv E1; auto; fail).
+      apply close_connection_rl, RecLevel_Mono in E1. mt; eauto. }
+    destruct y1; [inv E0; auto|].
+    match type of E0 with (let '(_, _) := ?e in _) = _ => destruct e as [z s3] eqn:E2 end.
+    assert (M2 : Mono s2 s3).
+    { match type of E2 with context [if ?b then set_taint_gc ?u true else ?u] =>
+        set (sa := if b then set_taint_gc u true else u) in *;
+        assert (Ma : Mono u sa) by (subst sa; destruct b; [mono_leaf|apply Mono_refl]) end.
+      mt; [exact Ma|].
+      destruct r; [eapply RecLevel_Mono, rec_invalidate_rl; exact E2|inv E2; apply Mono_refl]. }
+    repeat dm E0; inv E0; mt; eauto. }
+  destruct y; [|inv H; auto].
+  match type of H with (let '(_, _) := ?e in _) = _ => destruct e as [w s2] eqn:E1 end.
+  assert (M1 : Mono s1 s2).
+  { repeat dm E1; try (inv E1; apply Mono_refl). eapply rec_checkin_mono; eauto. }
+  destruct w; [|inv H; mt; eauto].
+  destruct fy; inv H; [|mt; eauto]. mt; [exact M0|]. mt; [exact M1|]. mono_leaf.
+Qed.
+
+Lemma fairy_checkin_mono : forall f twr s x s', fairy_checkin cf f twr s = (x, s') -> Mono s s'.
+Proof. unfold fairy_checkin; intros. eapply finalize_mono; eauto. Qed.
+
+Lemma fairy_close_mono : forall f s x s', fairy_close cf f s = (x, s') -> Mono s s'.
+Proof.
+  unfold fairy_close; intros. dm H.
+  - apply fairy_checkin_mono in H. mt; [|exact H]. mono_leaf.
+  - inv H. mono_leaf.
+Qed.
+
+Lemma fairy_invalidate_mono : forall f soft s x s', fairy_invalidate cf f soft s = (x, s') -> Mono s s'.
+Proof.
+  unfold fairy_invalidate; intros. dm H; [|inv H; apply Mono_refl].
+  match type of H with (let '(_, _) := ?e in _) = _ => destruct e as [y s1] eqn:E0 end.
+  assert (M0 : Mono s s1).
+  { dm E0; [eapply RecLevel_Mono, rec_invalidate_rl; eauto|inv E0; apply Mono_refl]. }
+  destruct y; [|inv H; auto]. destruct soft; [inv H; auto|].
+  apply fairy_checkin_mono in H. mt; [exact M0|]. mt; [|exact H]. mono_leaf.
+Qed.
+
+Lemma fairy_detach_mono : forall f s x s', fairy_detach cf f s = (x, s') -> Mono s s'.
+Proof.
+  unfold fairy_detach; intros. dm H; [|inv H; apply Mono_refl].
+  match type of H with context [do_return_conn cf ?r ?s0] =>
+    destruct (do_return_conn cf r s0) as [y s4] eqn:E1; set (sx := s0) in * end.
+  apply do_return_conn_mono in E1.
+  assert (M0 : Mono s sx).
+  { subst sx. mt; [apply (Mono_clear_fairy s n)|].
+    match goal with |- Mono ?a (set_r_dbc (mark_det ?o1 (mark_det ?o2 ?a)) _) =>
+      mt; [apply (RecLevel_Mono _ _ (mark_det_rl o2 a))|];
+      mt; [apply (RecLevel_Mono _ _ (mark_det_rl o1 (mark_det o2 a)))|] end.
+    mono_leaf. }
+  dm H; inv H; [mt; [exact M0|]; mt; [exact E1|]; mono_leaf | mt; eauto].
+Qed.
+
+Lemma mark_all_mono : forall s, Mono s (mark_all s).
+Proof. intros; unfold mark_all; mono_leaf. Qed.
+
+Lemma pool_invalidate_mono : forall f chk s x s', pool_invalidate cf f chk s = (x, s') -> Mono s s'.
+Proof.
+  unfold pool_invalidate; intros.
+  match type of H with context [if ?b then (let (_, _) := now cf s in _) else s] =>
+    set (s1 := if b then (let (t, s1) := now cf s in mark_all (set_inv_time s1 t)) else s) in *;
+    assert (M0 : Mono s s1) end.
+  { subst s1. match goal with |- Mono _ (if ?b then _ else _) => destruct b end; [|apply Mono_refl].
+    destruct (now cf s) as [t s2] eqn:En. apply now_rl, RecLevel_Mono in En.
+    mt; [exact En|]. mt; [|apply mark_all_mono]. mono_leaf. }
+  destruct chk; [|inv H; auto].
+  dm H; [|inv H; auto]. apply fairy_invalidate_mono in H. mt; eauto.
+Qed.
+
+Lemma checkout_loop_mono : forall n f s x s', checkout_loop cf n f s = (x, s') -> Mono s s'.
+Proof.
+  induction n; intros f s x s' H; cbn [checkout_loop] in H.
+  - destruct (fairy_invalidate cf f false s) as [y s1] eqn:E. apply fairy_invalidate_mono in E.
+    destruct y; inv H; auto.
+  - destruct (f_rec s f) as [r|] eqn:Er; [|inv H; apply Mono_refl].
+    destruct (f_dbc s f) as [c|] eqn:Ec; [|inv H; apply Mono_refl].
+    set (s0 := set_r_fresh s (upd (r_fresh s) r false)) in *.
+    assert (M0 : Mono s s0) by (subst s0; mono_leaf).
+    match type of H with (let '(_, _) := ?e in _) = _ => destruct e as [x1 s1] eqn:E1 end.
+    assert (M1 : Mono s0 s1).
+    { dm E1; [|inv E1; apply Mono_refl].
+      destruct (ext_ping c s0) as [z s2] eqn:Ep. apply ext_ping_rl, RecLevel_Mono in Ep.
+      repeat dm E1; inv E1; auto. }
+    match type of H with (let '(_, _) := ?e in _) = _ => destruct e as [x2 s2] eqn:E2 end.
+    assert (M2 : Mono s1 s2).
+    { destruct x1; [|inv E2; apply Mono_refl]. dm E2; [|inv E2; apply Mono_refl].
+      eapply RecLevel_Mono, ext_event_rl; eauto. }
+    assert (M02 : Mono s s2) by (mt; [exact M0|]; mt; eauto).
+    destruct x2 as [|e]; [inv H; auto|].
+    destruct (is_disc e).
+    + destruct (rec_invalidate cf r false s2) as [y3 s3] eqn:E3.
+      apply rec_invalidate_rl, RecLevel_Mono in E3.
+      destruct y3; [|inv H; mt; eauto].
+      match type of H with (let '(_, _) := ?e in _) = _ => destruct e as [y4 s4] eqn:E4 end.
+      assert (M4 : Mono s3 s4).
+      { dm E4; [eapply pool_invalidate_mono; eauto|inv E4; apply Mono_refl]. }
+      destruct y4; [|inv H; mt; [exact M02|]; mt; eauto].
+      destruct (get_connection cf r s4) as [[c'|err] s5] eqn:E5;
+        pose proof (RecLevel_Mono _ _ (get_connection_rl _ _ _ _ _ E5)) as M5.
+      * apply IHn in H. mt; [exact M02|]. mt; [exact E3|]. mt; [exact M4|]. mt; [exact M5|].
+        mt; [|exact H]. mono_leaf.
+      * destruct (checkin_failed cf r true s5) as [y6 s6] eqn:E6.
+        pose proof (checkin_failed_mono _ _ _ _ _ _ E6) as M6.
+        eapply reraise_after_mono; [exact H|]. cbn.
+        mt; [exact M02|]. mt; [exact E3|]. mt; [exact M4|]. mt; eauto.
+    + destruct (f_rec s2 f) as [r'|]; [|inv H; auto].
+      destruct (checkin_failed cf r' true s2) as [y6 s6] eqn:E6.
+      pose proof (checkin_failed_mono _ _ _ _ _ _ E6) as M6.
+      eapply reraise_after_mono; [exact H|]. cbn. mt; eauto.
+Qed.
+
+
+(* ---- functions that never touch the fairies *)
+Lemma rl_fr' : forall s s', RecLevel s s' -> fr s' = fr s.
+Proof. intros s s' []; auto. Qed.
+
+Lemma new_record_fr : forall s x s', new_record cf s = (x, s') -> fr s' = fr s.
+Proof.
+  unfold new_record; intros.
+  match type of H with context [rec_connect cf ?r ?s0] => destruct (rec_connect cf r s0) as [y s7] eqn:E end.
+  apply rec_connect_rl, rl_fr' in E. cbn in E. dm H; inv H; auto.
+Qed.
+Lemma do_get_queue_fr : forall fuel s x s', do_get_queue cf fuel s = (x, s') -> fr s' = fr s.
+Proof.
+  induction fuel; intros s x s' H; cbn [do_get_queue] in H; [inv H; auto|].
+  destruct (q_get cf s) as [[r s1]|] eqn:Eq.
+  - inv H. unfold q_get in Eq. repeat dm Eq; inv Eq; auto.
+  - dm H.
+    + dm H; [eauto|inv H; auto].
+    + destruct (inc_overflow cf s) as [ok s1] eqn:Ei.
+      assert (F1 : fr s1 = fr s) by (unfold inc_overflow in Ei; repeat dm Ei; inv Ei; auto).
+      destruct ok; [|apply IHfuel in H; congruence].
+      destruct (new_record cf s1) as [y s2] eqn:En. apply new_record_fr in En.
+      dm H; inv H; cbn; congruence.
+Qed.
+Lemma do_get_fr : forall s x s', do_get cf s = (x, s') -> fr s' = fr s.
+Proof.
+  unfold do_get; intros. destruct (kind cf).
+  - eapply do_get_queue_fr; eauto.
+  - eapply new_record_fr; eauto.
+  - match type of H with (let '(_, _) := ?e in _) = _ => destruct e as [y s1] eqn:E0 end.
+    assert (F0 : fr s1 = fr s).
+    { dm E0; [inv E0; auto|]. destruct (new_record cf s) as [z s2] eqn:En. apply new_record_fr in En.
+      dm E0; inv E0; auto. }
+    destruct y; [|inv H; auto]. dm H; [|inv H; auto].
+    match type of H with context [new_record cf ?s0] => destruct (new_record cf s0) as [z s3] eqn:En end.
+    apply new_record_fr in En. cbn in En. dm H; inv H; cbn; congruence.
+  - dm H; [inv H; auto|]. destruct (new_record cf s) as [z s2] eqn:En. apply new_record_fr in En.
+    dm H; inv H; auto.
+  - dm H; [inv H; auto|].
+    match type of H with (let '(_, _) := ?e in _) = _ => destruct e as [y s1] eqn:E0 end.
+    assert (F0 : fr s1 = fr s).
+    { dm E0; [inv E0; auto|]. destruct (new_record cf s) as [z s2] eqn:En. apply new_record_fr in En.
+      dm E0; inv E0; auto. }
+    destruct y; inv H; auto.
+Qed.
+Lemma do_return_conn_fr : forall r s x s', do_return_conn cf r s = (x, s') -> fr s' = fr s.
+Proof.
+  unfold do_return_conn; intros. destruct (kind cf).
+  - dm H.
+    + destruct (rec_close_if_open r s) as [y s1] eqn:E1. apply rec_close_if_open_rl, rl_fr' in E1. inv H. auto.
+    + inv H; auto.
+  - eapply rl_fr', rec_close_if_open_rl; eauto.
+  - inv H; auto.
+  - inv H; auto.
+  - dm H; inv H; auto.
+Qed.
+Lemma rec_checkin_fr : forall r fwc s x s', rec_checkin cf r fwc s = (x, s') -> fr s' = fr s.
+Proof.
+  unfold rec_checkin; intros. dm H.
+  - apply do_return_conn_fr in H. auto.
+  - dm H; [inv H; auto|eapply do_return_conn_fr; eauto].
+Qed.
+Lemma checkin_failed_fr : forall r fwc s x s', checkin_failed cf r fwc s = (x, s') -> fr s' = fr s.
+Proof.
+  unfold checkin_failed; intros.
+  destruct (rec_invalidate cf r false s) as [y s1] eqn:E1. apply rec_invalidate_rl, rl_fr' in E1.
+  dm H; [|inv H; auto]. apply rec_checkin_fr in H. congruence.
+Qed.
+
+(* _ConnectionRecord.checkout makes exactly one fairy, or none when it raises *)
+Lemma record_checkout_new : forall s x s', record_checkout cf s = (x, s') ->
+  match x with
+  | Ok f => f = nfairies s /\ nfairies s' = S (nfairies s) /\ f_dead s' f = false
+  | Raise _ => fr s' = fr s
+  end.
+Proof.
+  unfold record_checkout; intros.
+  destruct (do_get cf s) as [[r|e] s1] eqn:E1; pose proof (do_get_fr _ _ _ E1) as F1; [|inv H; auto].
+  destruct (get_connection cf r s1) as [[c|err] s2] eqn:E2;
+    pose proof (rl_fr' _ _ (get_connection_rl _ _ _ _ _ E2)) as F2.
+  - inv H. unfold nfairies, f_dead in *. cbn. rewrite F2, F1. rewrite upd_same. auto.
+  - destruct (checkin_failed cf r false s2) as [y s3] eqn:E3. apply checkin_failed_fr in E3.
+    unfold reraise_after in H. destruct y; inv H; congruence.
+Qed.
+
+Lemma Mono_set_sg : forall s s2 f, Mono s s2 -> (nfairies s <= f < nfairies s2)%nat ->
+  Mono s (set_sg_fairy s2 (Some f)).
+Proof.
+  intros s s2 f M Hf. pose proof M as [].
+  constructor; sproj; intros; auto.
+  inv H. right. lia.
+Qed.
+
+Lemma fairy_checkout_mono : forall ex thr s x s', fairy_checkout cf ex thr s = (x, s') -> Mono s s'.
+Proof.
+  unfold fairy_checkout; intros.
+  match type of H with (let '(_, _) := ?e in _) = _ => destruct e as [x1 s1] eqn:E1 end.
+  assert (M1 : Mono s s1).
+  { destruct ex; [inv E1; apply Mono_refl|].
+    destruct (record_checkout cf s) as [[f|e] s2] eqn:Er; pose proof (record_checkout_mono _ _ _ _ Er) as Mr;
+      inv E1; auto.
+    destruct thr; auto.
+    (* set_sg_fairy to the new fairy: its index is new *)
+    apply record_checkout_new in Er. destruct Er as [Ef [En _]].
+    subst f. eapply Mono_set_sg; eauto. lia. }
+  destruct x1 as [f|]; [|inv H; auto].
+  repeat dm H; try (inv H; auto; fail).
+  - inv H. mt; [exact M1|]. mono_leaf.
+  - apply checkout_loop_mono in H. mt; [exact M1|]. mt; [|exact H]. mono_leaf.
+Qed.
+End Frame3.
+
+Section Frame4.
+Variable cf : cfg.
+
+(* functions that neither create fairies nor change f_orig / f_dead *)
+Definition SameNF (s s' : st) : Prop :=
+  nfairies s' = nfairies s /\ f_orig s' = f_orig s /\ f_dead s' = f_dead s.
+Lemma SameNF_refl : forall s, SameNF s s.
+Proof. intros; repeat split. Qed.
+Lemma SameNF_trans : forall a b c, SameNF a b -> SameNF b c -> SameNF a c.
+Proof. intros a b c (?&?&?) (?&?&?); repeat split; congruence. Qed.
+Lemma fr_SameNF : forall s s', fr s' = fr s -> SameNF s s'.
+Proof. intros s s' H. unfold SameNF, nfairies, f_orig, f_dead. rewrite H. auto. Qed.
+Ltac nf_leaf := unfold SameNF; sproj; auto.
+Ltac nt := eapply SameNF_trans.
+
+Lemma finalize_nf : forall dbc r gcf twr fy s x s', finalize cf dbc r gcf twr fy s = (x, s') -> SameNF s s'.
+Proof.
+  unfold finalize; intros.
+  match type of H with (if ?b then _ else _) = _ => destruct b; [inv H; apply SameNF_refl|] end.
+  match type of H with (let '(_, _) := ?e in _) = _ => destruct e as [y s1] eqn:E0 end.
+  assert (M0 : fr s1 = fr s).
+  { match type of E0 with match ?d with _ => _ end = _ => destruct d as [c|] end; [|inv E0; auto].
+    match type of E0 with (let '(_, _) := ?e in _) = _ => destruct e as [y1 s2] eqn:E1 end.
+    assert (M1 : fr s2 = fr s).
+    { destruct (fairy_reset cf c twr s) as [z s3] eqn:Er. apply fairy_reset_rl, rl_fr' in Er.
+      destruct z; [|inv E1; auto]. dm E1; try (inv E1; auto; fail).
+      apply close_connection_rl, rl_fr' in E1. congruence. }
+    destruct y1; [inv E0; auto|].
+    match type of E0 with (let '(_, _) := ?e in _) = _ => destruct e as [z s3] eqn:E2 end.
+    assert (M2 : fr s3 = fr s2).
+    { match type of E2 with context [if ?b then set_taint_gc ?u true else ?u] =>
+        set (sa := if b then set_taint_gc u true else u) in *;
+        assert (Ma : fr sa = fr u) by (subst sa; destruct b; auto) end.
+      destruct r; [apply rec_invalidate_rl, rl_fr' in E2; congruence|inv E2; auto]. }
+    repeat dm E0; inv E0; congruence. }
+  destruct y; [|inv H; apply fr_SameNF; auto].
+  match type of H with (let '(_, _) := ?e in _) = _ => destruct e as [w s2] eqn:E1 end.
+  assert (M1 : fr s2 = fr s1).
+  { repeat dm E1; try (inv E1; auto; fail). eapply rec_checkin_fr; eauto. }
+  destruct w; [|inv H; apply fr_SameNF; congruence].
+  destruct fy; inv H; [|apply fr_SameNF; congruence].
+  apply (SameNF_trans _ s2); [apply fr_SameNF; congruence|nf_leaf].
+Qed.
+
+Lemma fairy_checkin_nf : forall f twr s x s', fairy_checkin cf f twr s = (x, s') -> SameNF s s'.
+Proof. unfold fairy_checkin; intros. eapply finalize_nf; eauto. Qed.
+
+Lemma fairy_close_nf : forall f s x s', fairy_close cf f s = (x, s') -> SameNF s s'.
+Proof.
+  unfold fairy_close; intros. dm H.
+  - apply fairy_checkin_nf in H. nt; [|exact H]. nf_leaf.
+  - inv H. nf_leaf.
+Qed.
+
+Lemma fairy_invalidate_nf : forall f soft s x s', fairy_invalidate cf f soft s = (x, s') -> SameNF s s'.
+Proof.
+  unfold fairy_invalidate; intros. dm H; [|inv H; apply SameNF_refl].
+  match type of H with (let '(_, _) := ?e in _) = _ => destruct e as [y s1] eqn:E0 end.
+  assert (M0 : SameNF s s1).
+  { dm E0; [eapply fr_SameNF, rl_fr', rec_invalidate_rl; eauto|inv E0; apply SameNF_refl]. }
+  destruct y; [|inv H; auto]. destruct soft; [inv H; auto|].
+  apply fairy_checkin_nf in H. nt; [exact M0|]. nt; [|exact H]. nf_leaf.
+Qed.
+
+Lemma fairy_detach_nf : forall f s x s', fairy_detach cf f s = (x, s') -> SameNF s s'.
+Proof.
+  unfold fairy_detach; intros. dm H; [|inv H; apply SameNF_refl].
+  match type of H with context [do_return_conn cf ?r ?s0] =>
+    destruct (do_return_conn cf r s0) as [y s4] eqn:E1; set (sx := s0) in * end.
+  apply do_return_conn_fr in E1.
+  assert (M0 : fr sx = fr s).
+  { subst sx. unfold mark_det. repeat dm_goal; reflexivity. }
+  dm H; inv H; [|apply fr_SameNF; congruence].
+  apply (SameNF_trans _ s4); [apply fr_SameNF; congruence|nf_leaf].
+Qed.
+
+Lemma pool_invalidate_nf : forall f chk s x s', pool_invalidate cf f chk s = (x, s') -> SameNF s s'.
+Proof.
+  unfold pool_invalidate; intros.
+  match type of H with context [if ?b then (let (_, _) := now cf s in _) else s] =>
+    set (s1 := if b then (let (t, s1) := now cf s in mark_all (set_inv_time s1 t)) else s) in *;
+    assert (M0 : fr s1 = fr s) end.
+  { subst s1. match goal with |- fr (if ?b then _ else _) = _ => destruct b end; [|auto].
+    destruct (now cf s) as [t s2] eqn:En. apply now_rl, rl_fr' in En. rewrite <- En. reflexivity. }
+  destruct chk; [|inv H; apply fr_SameNF; auto].
+  dm H; [|inv H; apply fr_SameNF; auto]. apply fairy_invalidate_nf in H. nt; [apply fr_SameNF; eauto|auto].
+Qed.
+
+Lemma checkout_loop_nf : forall n f s x s', checkout_loop cf n f s = (x, s') -> SameNF s s'.
+Proof.
+  induction n; intros f s x s' H; cbn [checkout_loop] in H.
+  - destruct (fairy_invalidate cf f false s) as [y s1] eqn:E. apply fairy_invalidate_nf in E.
+    destruct y; inv H; auto.
+  - destruct (f_rec s f) as [r|] eqn:Er; [|inv H; apply SameNF_refl].
+    destruct (f_dbc s f) as [c|] eqn:Ec; [|inv H; apply SameNF_refl].
+    set (s0 := set_r_fresh s (upd (r_fresh s) r false)) in *.
+    assert (M0 : SameNF s s0) by (subst s0; nf_leaf).
+    match type of H with (let '(_, _) := ?e in _) = _ => destruct e as [x1 s1] eqn:E1 end.
+    assert (M1 : SameNF s0 s1).
+    { dm E1; [|inv E1; apply SameNF_refl].
+      destruct (ext_ping c s0) as [z s2] eqn:Ep. apply ext_ping_rl, rl_fr', fr_SameNF in Ep.
+      repeat dm E1; inv E1; auto. }
+    match type of H with (let '(_, _) := ?e in _) = _ => destruct e as [x2 s2] eqn:E2 end.
+    assert (M2 : SameNF s1 s2).
+    { destruct x1; [|inv E2; apply SameNF_refl]. dm E2; [|inv E2; apply SameNF_refl].
+      eapply fr_SameNF, rl_fr', ext_event_rl; eauto. }
+    assert (M02 : SameNF s s2) by (nt; [exact M0|]; nt; eauto).
+    destruct x2 as [|e]; [inv H; auto|].
+    destruct (is_disc e).
+    + destruct (rec_invalidate cf r false s2) as [y3 s3] eqn:E3.
+      apply rec_invalidate_rl, rl_fr', fr_SameNF in E3.
+      destruct y3; [|inv H; nt; eauto].
+      match type of H with (let '(_, _) := ?e in _) = _ => destruct e as [y4 s4] eqn:E4 end.
+      assert (M4 : SameNF s3 s4).
+      { dm E4; [eapply pool_invalidate_nf; eauto|inv E4; apply SameNF_refl]. }
+      destruct y4; [|inv H; nt; [exact M02|]; nt; eauto].
+      destruct (get_connection cf r s4) as [[c'|err] s5] eqn:E5;
+        pose proof (fr_SameNF _ _ (rl_fr' _ _ (get_connection_rl _ _ _ _ _ E5))) as M5.
+      * apply IHn in H. nt; [exact M02|]. nt; [exact E3|]. nt; [exact M4|]. nt; [exact M5|].
+        nt; [|exact H]. nf_leaf.
+      * destruct (checkin_failed cf r true s5) as [y6 s6] eqn:E6.
+        pose proof (fr_SameNF _ _ (checkin_failed_fr _ _ _ _ _ _ E6)) as M6.
+        assert (SameNF s s6) by (nt; [exact M02|]; nt; [exact E3|]; nt; [exact M4|]; nt; eauto).
+        unfold reraise_after in H. destruct y6; inv H; auto.
+    + destruct (f_rec s2 f) as [r'|]; [|inv H; auto].
+      destruct (checkin_failed cf r' true s2) as [y6 s6] eqn:E6.
+      pose proof (fr_SameNF _ _ (checkin_failed_fr _ _ _ _ _ _ E6)) as M6.
+      assert (SameNF s s6) by (nt; eauto).
+      unfold reraise_after in H. destruct y6; inv H; auto.
+Qed.
+
+Lemma checkout_loop_ret : forall n f s g s', checkout_loop cf n f s = (Ok g, s') -> g = f.
+Proof.
+  induction n; intros f s g s' H; cbn [checkout_loop] in H.
+  - repeat dm H; inv H.
+  - repeat dm H; try (inv H; auto; fail); try (unfold reraise_after in H; repeat dm H; inv H; fail);
+      try (eapply IHn; eauto).
+Qed.
+
+Lemma fairy_checkout_after : forall f s x s',
+  (let n := f_counter s f + 1 in
+   let s2 := set_f_counter s (upd (f_counter s) f n) in
+   match f_rec s f, f_dbc s f with
+   | Some _, Some _ =>
+       if (negb (listener cf) && negb (pre_ping cf)) || negb (n =? 1) then (Ok f, s2)
+       else checkout_loop cf 2 f s2
+   | _, _ => (Raise AssertE, s)
+   end) = (x, s') -> SameNF s s' /\ match x with Ok g => g = f | _ => True end.
+Proof.
+  cbv zeta. intros. repeat dm H; try (inv H; split; [try apply SameNF_refl|]; auto; nf_leaf; fail).
+  pose proof H as H'. apply checkout_loop_nf in H. split; [eapply SameNF_trans; [|exact H]; nf_leaf|].
+  destruct x; auto. eapply checkout_loop_ret; eauto.
+Qed.
+
+Lemma fairy_checkout_new : forall ex thr s x s', fairy_checkout cf ex thr s = (x, s') ->
+  match ex with
+  | Some f => SameNF s s' /\ match x with Ok g => g = f | _ => True end
+  | None => match x with
+            | Ok f => f = nfairies s /\ nfairies s' = S (nfairies s) /\ f_dead s' f = false
+            | Raise _ => SameNF s s' \/ (nfairies s' = S (nfairies s) /\ f_dead s' (nfairies s) = false)
+            end
+  end.
+Proof.
+  unfold fairy_checkout; intros. destruct ex as [f|].
+  - apply fairy_checkout_after in H. auto.
+  - destruct (record_checkout cf s) as [[f|e] s1] eqn:Er; pose proof (record_checkout_new _ _ _ _ Er) as N;
+      cbn beta iota in *.
+    + destruct N as (Nf & Nn & Nd).
+      set (s1' := if thr then set_sg_fairy s1 (Some f) else s1) in *.
+      assert (S1 : fr s1' = fr s1) by (subst s1'; destruct thr; reflexivity).
+      pose proof (fairy_checkout_after f s1' x s' H) as [(A1 & A2 & A3) B].
+      unfold nfairies, f_dead in *. rewrite S1 in *.
+      destruct x as [g|].
+      * subst g. rewrite A1, A3. auto.
+      * right. rewrite A1, A3. subst f. auto.
+    + inv H. left. apply fr_SameNF; auto.
+Qed.
+
+Lemma pool_connect_new : forall s x s', pool_connect cf s = (x, s') ->
+  match x with
+  | Ok f => (SameNF s s' /\ sg_fairy s = Some f /\ f_dead s f = false)
+            \/ (f = nfairies s /\ nfairies s' = S (nfairies s) /\ f_dead s' f = false)
+  | Raise _ => SameNF s s' \/ (nfairies s' = S (nfairies s) /\ f_dead s' (nfairies s) = false)
+  end.
+Proof.
+  unfold pool_connect; intros.
+  assert (G : forall thr, fairy_checkout cf None thr s = (x, s') ->
+     match x with
+     | Ok f => (SameNF s s' /\ sg_fairy s = Some f /\ f_dead s f = false)
+               \/ (f = nfairies s /\ nfairies s' = S (nfairies s) /\ f_dead s' f = false)
+     | Raise _ => SameNF s s' \/ (nfairies s' = S (nfairies s) /\ f_dead s' (nfairies s) = false)
+     end).
+  { intros thr H0. apply fairy_checkout_new in H0. destruct x; auto. }
+  destruct (kind cf); try exact (G _ H).
+  destruct (sg_fairy s) as [f|] eqn:Es; [|exact (G _ H)].
+  destruct (f_dead s f) eqn:Ed; [exact (G _ H)|].
+  apply fairy_checkout_new in H. cbn beta iota in H. destruct H as [A B]. destruct x; auto. subst. left. auto.
+Qed.
+
+Lemma pool_connect_mono : forall s x s', pool_connect cf s = (x, s') -> Mono s s'.
+Proof.
+  unfold pool_connect; intros. repeat dm H; eapply fairy_checkout_mono; eauto.
+Qed.
+End Frame4.
